@@ -9,6 +9,7 @@
 
 #include "Compiler/include/ParserGenerator/grammar.hpp"
 #include "Compiler/include/ParserGenerator/lrdea.hpp"
+#include "VM/include/verif_hook.hpp"
 
 namespace Theo {
 
@@ -223,6 +224,7 @@ LRParser<SemanticType, TokenType>::parse(Iterable in) {
   std::vector<int> states = {0};
   std::vector<SemanticType> values = {};
   for (;;) {
+    THEO_VERIF_POINT(LR_ACTION, states.size(), 0);
     int s = states.back();
     int a = translator(*ip).index;
     if ((int)action[s].size() <= a)
